@@ -146,3 +146,12 @@ Print Assumptions C03_registered_type_arithmetic_error_refuted.
 Theorem C03_yaml_timestamp_tag_refuted : finding_status 25 wit_finding_25.
 Proof. exact finding_25_status. Qed.
 Print Assumptions C03_yaml_timestamp_tag_refuted.
+Theorem C03_parse_object_non_mapping_refuted : finding_status 26 wit_finding_26.
+Proof. exact finding_26_status. Qed.
+Print Assumptions C03_parse_object_non_mapping_refuted.
+Theorem C03_huge_int_rendering_refuted : finding_status 27 wit_finding_27.
+Proof. exact finding_27_status. Qed.
+Print Assumptions C03_huge_int_rendering_refuted.
+Theorem C03_cwd_deleted_refuted : finding_status 28 wit_finding_28.
+Proof. exact finding_28_status. Qed.
+Print Assumptions C03_cwd_deleted_refuted.
